@@ -30,7 +30,7 @@ ASSUME = [
 TIERS = {
     #            safety cfg               sim traces  lanes  sim procs  environment moves of the systematic part
     "quick":    ("Scheduler_quick.cfg",    1600,       8,     2,         3),
-    "thorough": ("Scheduler_thorough.cfg", 24000,      16,    6,         4),
+    "thorough": ("Scheduler_thorough.cfg", 16000,      16,    6,         4),
 }
 
 
@@ -75,9 +75,15 @@ def replay_real(sc, R, tier, seed, beh, lanes, outname, extra_args):
 
 
 def validate(sc, R, metas, selftest_from):
-    files = [f for meta, _ in metas for f in meta["trace_files"]]
+    # one file: validate_traces splits it at Reset lines into one part per JVM (not one set of parts per lane)
+    allfp = os.path.join(sc.sub("alltraces"), "all.ndjson")
+    with open(allfp, "wb") as out:
+        for meta, _ in metas:
+            for f in meta["trace_files"]:
+                with open(f, "rb") as src:
+                    shutil.copyfileobj(src, out)
     bad_fp, bad_line = corrupted_copy(sc, selftest_from)
-    val = V.validate_traces(sc, "Scheduler", "SchedulerTraceMC.tla", "SchedulerTrace.cfg", files + [bad_fp], timeout=2400)
+    val = V.validate_traces(sc, "Scheduler", "SchedulerTraceMC.tla", "SchedulerTrace.cfg", [allfp, bad_fp], timeout=2400)
     mine = [r for r in val["rejections"] if r[0] == bad_fp]
     val["rejections"] = [r for r in val["rejections"] if r[0] != bad_fp]
     lines_rej = [r[1] for r in mine]
@@ -177,7 +183,7 @@ def run(sc, tier, seed):
     ebeh, nenum, (egen, edist) = enumerate_all(sc, moves)
     R.states += edist
     R.transitions += egen
-    m1 = replay_real(sc, R, tier, seed, ebeh, 4, "drv-c17-enum", ["systematic", "race=0"])
+    m1 = replay_real(sc, R, tier, seed, ebeh, 4 if tier == "quick" else 12, "drv-c17-enum", ["systematic", "race=0"])
     # ---- binding 2: seeded random longer behaviours (tlc -simulate), a quarter of them replayed in race mode ----
     beh, nbeh = simulate(sc, ntraces, seed, procs)
     m2 = replay_real(sc, R, tier, seed, beh, lanes, "drv-c17-sim", [])
